@@ -13,6 +13,9 @@ Fixpoint upd {A} (i : nat) (v : A) (l : list A) : list A :=
 Lemma upd_length {A} i (v : A) l : length (upd i v l) = length l.
 Proof. revert i; induction l as [|h t IH]; intros [|i]; simpl; auto. Qed.
 
+Lemma upd_upd {A} i (v w : A) l : upd i w (upd i v l) = upd i w l.
+Proof. revert i; induction l as [|h t IH]; intros [|i]; simpl; try reflexivity. f_equal. apply IH. Qed.
+
 Lemma upd_split {A} i (v : A) l :
   i < length l -> upd i v l = firstn i l ++ v :: skipn (S i) l.
 Proof.
